@@ -1,17 +1,20 @@
 #!/bin/bash
 # run_seeded.sh <seeded-id> <PROPERTY> [extra simcheck args...]
-# Applies /verif/seeded/<id>/patch.diff to /repo, runs the property's check, and
-# ALWAYS restores /repo afterwards. Prints the exit status and violation classes.
+# Applies /verif/seeded/<id>/patch.diff to a scratch worktree of /repo HEAD (equivalent to
+# `git -C /repo apply` + `git -C /repo checkout -- .`, but /repo itself stays untouched so that
+# other checks can run meanwhile), runs the property's check against it, removes the worktree.
+# The run's evidence goes to a temporary directory, never to /verif/evidence.
 set -u
 id=$1; prop=$2; shift 2
 patch=/verif/seeded/$id/patch.diff
 [ -f "$patch" ] || { echo "no such seeded change: $id"; exit 2; }
-if [ -n "$(git -C /repo status --porcelain)" ]; then echo "/repo is dirty, refusing"; exit 2; fi
-restore() { git -C /repo checkout -- . ; }
-trap restore EXIT
-git -C /repo apply "$patch" || { echo "patch does not apply"; exit 2; }
+wt=$(mktemp -d /tmp/seedwt.XXXXXX); ev=$(mktemp -d /tmp/seedev.XXXXXX)
+cleanup() { git -C /repo worktree remove --force "$wt" >/dev/null 2>&1; rm -rf "$wt" "$ev"; }
+trap cleanup EXIT
+git -C /repo worktree add -q --detach "$wt" HEAD || exit 2
+git -C "$wt" apply "$patch" || { echo "patch does not apply"; exit 2; }
 log=$(mktemp)
-SIMCHECK_EVIDENCE_DIR=$(mktemp -d) timeout 1500 /verif/simcheck run "$prop" "$@" > "$log" 2>&1
+SIMCHECK_REPO_DIR="$wt" SIMCHECK_EVIDENCE_DIR="$ev" timeout 1500 /verif/simcheck run "$prop" "$@" > "$log" 2>&1
 rc=$?
 echo "seeded=$id property=$prop exit=$rc"
 grep "violation class\|^simcheck: $prop\|KNOWN-FINDING\|TROUBLE\|HUNG" "$log" | cut -c1-200 | head -20
